@@ -2,9 +2,11 @@ package enga
 
 import (
 	"fmt"
+	"math"
 	"math/rand/v2"
 	"os"
 	"path/filepath"
+	"strconv"
 	"strings"
 
 	"github.com/gkampitakis/go-snaps/match"
@@ -156,6 +158,13 @@ func runC16(c *vkit.Ctx, r *rand.Rand, i int) {
 				ph = src.S
 			case "null":
 				ph = ""
+			}
+			if src.Kind == "num" && r.IntN(2) == 0 {
+				// ... or the number itself as a float64 (numerically equal to the masked value,
+				// whatever its spelling: 1E+2, -0, 1.50)
+				if f, err := strconv.ParseFloat(src.S, 64); err == nil && !math.IsInf(f, 0) {
+					ph = f
+				}
 			}
 			c.Count("placeholder_equal_to_text_of_a_masked_value", 1)
 		}
